@@ -693,4 +693,122 @@ def signature(prop, run, model_lines, diverged, k, msg, kind):
     return ""
 
 
-MONITORS = {"C07": mon_C07, "C06": mon_C06, "C09": mon_C09, "C03": mon_C03, "C10": mon_C10, "C01": mon_C01, "C02": mon_C02, "C11": mon_C11}
+def hooks_of(run):
+    def n(v):
+        return 0 if v in ("-", None) else len(v)
+    return n(run.cfg.get("pre")), n(run.cfg.get("postr")), n(run.cfg.get("postc"))
+
+
+def mon_C04(run):
+    """per get(): the call log follows the grammar 'attempts on idle objects, each a prefix
+    of pre hooks / recycle / post hooks in registration order on one object with unchanged
+    metrics, a failed attempt ends in detach+destroy of exactly that object, the hand-out
+    comes only after a complete all-ok sequence (or create + all post_create hooks)';
+    results are the documented variants with their causes"""
+    bad = object_history_violations(run)
+    if bad:
+        return bad[:1]
+    npre, npostr, npostc = hooks_of(run)
+    nrec = npre + 1 + npostr
+    st = {}   # per get op
+    prev_lbl = {}
+    for row in run.rows:
+        if row is None:
+            continue
+        k, i = row["k"], row["op"]
+        a = row["action"].split()
+        if run.ops[i]["kind"] == "get":
+            S = st.setdefault(i, {"state": "idle", "cur": None, "m0": None, "expect": 0, "ocs": [], "fail": None})
+            if a[0] == "step" and a[2] not in ("run", "pending"):
+                pl = prev_lbl.get(i, "")
+                if pl in ("create", "recycle") or "[" in pl:
+                    S["ocs"].append(a[2])
+                    if a[2] != "ok":
+                        S["fail"] = (pl, a[2])
+        for e in row["ev"]:
+            name, args = ev_args(e)
+            if name in ("status", "pred", "retained", "resized", "closed", "taken", "oppanic"):
+                continue
+            g = int(args[0])
+            if g >= len(run.ops) or run.ops[g]["kind"] != "get":
+                continue
+            S = st.setdefault(g, {"state": "idle", "cur": None, "m0": None, "expect": 0, "ocs": [], "fail": None})
+            def err(msg):
+                bad.append((k, f"get #{g}: {msg} (event {e}, state {S['state']})"))
+            if name in ("pre_recycle", "recycle", "post_recycle"):
+                kk = int(args[1])
+                obj = args[2]
+                idx = kk if name == "pre_recycle" else (npre if name == "recycle" else npre + 1 + kk)
+                if idx == 0:
+                    if S["state"] != "idle":
+                        err("a new recycling attempt starts while another is unfinished")
+                    S.update(state="recycling", cur=obj.split(":")[0], m0=obj, expect=1, ocs=[], fail=None)
+                else:
+                    if S["state"] != "recycling" or obj != S["m0"] or idx != S["expect"]:
+                        err(f"callback out of registration order or on another object / changed metrics (expected index {S['expect']} on {S['m0']})")
+                    if S["fail"]:
+                        err(f"callback entered after {S['fail']} failed")
+                    S["expect"] = idx + 1
+            elif name == "create":
+                if S["state"] != "idle":
+                    err("Manager::create called while an object is in hand")
+                S.update(state="creating", cur=None, m0=None, expect=0, ocs=[], fail=None)
+            elif name == "post_create":
+                kk, obj = int(args[1]), args[2]
+                if S["state"] not in ("creating", "postcreate") or kk != S["expect"]:
+                    err("post_create hook out of order")
+                if S["fail"]:
+                    err(f"callback entered after {S['fail']} failed")
+                f = obj.split(":")
+                if f[1] != "0" or f[3] != "-":
+                    err("post_create hook saw metrics of a used object")
+                if S["cur"] not in (None, f[0]):
+                    err("post_create hooks on different objects")
+                S.update(state="postcreate", cur=f[0], m0=obj, expect=kk + 1)
+            elif name == "detach":
+                if S["state"] not in ("recycling", "postcreate", "creating") or (S["cur"] is not None and args[1] != S["cur"]):
+                    err("detach of an object that is not the one in hand")
+                S.update(state="detached", cur=args[1])
+            elif name == "destroy":
+                if S["state"] != "detached" or args[1] != S["cur"]:
+                    err("destroy without the preceding detach of the same object")
+                S.update(state="idle", cur=None)
+            elif name == "handout":
+                obj = args[1].split(":")
+                if any(o != "ok" for o in S["ocs"]):
+                    err(f"object handed out although a step of its preparation did not succeed: {S['ocs']}")
+                if S["state"] == "recycling":
+                    m0 = S["m0"].split(":")
+                    if S["expect"] != nrec:
+                        err(f"handed out after {S['expect']} of {nrec} recycling callbacks")
+                    if obj[0] != m0[0] or int(obj[1]) != int(m0[1]) + 1 or obj[2] != m0[2] or obj[3] == "-":
+                        err(f"metrics at hand-out {args[1]} do not follow from {S['m0']}")
+                elif S["state"] in ("creating", "postcreate"):
+                    if S["expect"] != npostc:
+                        err(f"handed out after {S['expect']} of {npostc} post_create hooks")
+                    if obj[1] != "0" or obj[3] != "-":
+                        err("fresh object handed out with used metrics")
+                else:
+                    err("hand-out without a preceding create / recycle")
+                S["state"] = "done"
+            elif name == "result":
+                r = args[1].split(":")[0]
+                if r == "ok" and S["state"] != "done":
+                    err("Ok without a hand-out")
+                if r == "backend" and not (S["state"] == "creating" and S["fail"] == ("create", "err")):
+                    err("Backend error that is not a creation error")
+                if r == "post_create_hook" and not (S["fail"] and S["fail"][0].startswith("post_create") and S["fail"][1] == "err" and S["state"] == "idle"):
+                    err("PostCreateHook error without a failed post_create hook whose object was discarded")
+                if r == "timeout_recycle":
+                    err("Timeout(Recycle) returned")
+                if r not in ("ok", "backend", "post_create_hook", "timeout_wait", "timeout_create", "closed", "no_runtime", "cancelled", "panicked"):
+                    err("undocumented result")
+                if r != "ok" and S["state"] in ("recycling", "postcreate", "detached"):
+                    err("the call ended while an object was still in its hands")
+        prev_lbl[i] = row["obs"]["lbl"]
+        if bad:
+            return bad[:1]
+    return bad[:1]
+
+
+MONITORS = {"C04": mon_C04, "C07": mon_C07, "C06": mon_C06, "C09": mon_C09, "C03": mon_C03, "C10": mon_C10, "C01": mon_C01, "C02": mon_C02, "C11": mon_C11}
